@@ -1,7 +1,82 @@
-import VermouthModel.Proto
-open Proto
+import VermouthModel.C03
+open Proto C03
 
-/-- placeholder driver for C03: replaced when the model is written -/
-def handle (_ : Unit) (_ : List Tok) : Unit × String := ((), "bad-op")
+/- request:  sys <dedup 0|1> <exact 0|1> [ mol* ]
+   mol   := [ nrexcl ff [ atom* ] [ [a b]* ] [ [name [ inter* ]]* ] ]
+   atom  := [ key [ [attrname val]* ] ]
+   val   := - | int | [ int ] (float, units 1e-12) | xhex
+   inter := [ [key*] xhex ]
+   response: names L groups L includes L src L pdb L gro L itp L -/
+
+def valOf (t : Tok) : Option Val :=
+  match t with
+  | Tok.none => some Val.none
+  | Tok.int i => some (Val.int i)
+  | Tok.str s => some (Val.str s)
+  | Tok.list [Tok.int n] => some (Val.num n)
+  | _ => none
+
+def attrOf (t : Tok) : Option (String × Val) := do
+  match ← t.list? with
+  | [k, v] => pure (← k.str?, ← valOf v)
+  | _ => none
+
+def atomOf (t : Tok) : Option Atom := do
+  match ← t.list? with
+  | [k, as] => pure { key := ← k.int?, attrs := ← (← as.list?).mapM attrOf }
+  | _ => none
+
+def pairOf (t : Tok) : Option (Int × Int) := do
+  match ← t.list? with
+  | [a, b] => pure (← a.int?, ← b.int?)
+  | _ => none
+
+def interOf (t : Tok) : Option Inter := do
+  match ← t.list? with
+  | [as, r] => pure { atoms := ← ints? as, rest := ← r.str? }
+  | _ => none
+
+def catOf (t : Tok) : Option (String × List Inter) := do
+  match ← t.list? with
+  | [n, l] => pure (← n.str?, ← (← l.list?).mapM interOf)
+  | _ => none
+
+def molOf (t : Tok) : Option Mol := do
+  match ← t.list? with
+  | [nr, ff, ns, es, is] =>
+    pure { nrexcl := ← nr.optInt?, ff := ← ff.optInt?, nodes := ← (← ns.list?).mapM atomOf,
+           edges := ← (← es.list?).mapM pairOf, inters := ← (← is.list?).mapM catOf }
+  | _ => none
+
+def encVal : Val → String
+  | Val.none => "-"
+  | Val.int i => encInt i
+  | Val.num n => "[ " ++ encInt n ++ " ]"
+  | Val.str s => encStr s
+
+def encRec (r : Rec) : String := encList [encVal r.atomname, encVal r.resname, encVal r.resid]
+def encRecs (l : List (List Rec)) : String := encList (l.map fun rs => encList (rs.map encRec))
+def encNats (l : List Nat) : String := encList (l.map encNat)
+def encPairs (l : List (Nat × Nat)) : String := encList (l.map fun p => encList [encNat p.1, encNat p.2])
+
+def handle (_ : Unit) (toks : List Tok) : Unit × String :=
+  let r : Option String :=
+    match toks with
+    | [Tok.str "sys", d, e, ms] => do
+        let dedup := (← d.nat?) != 0
+        let exact := (← e.nat?) != 0
+        let sys ← (← ms.list?).mapM molOf
+        let o := sysOut (if exact then exactClose else npClose) dedup sys
+        pure ("names " ++ encNats o.names ++ " groups " ++ encPairs o.groups
+              ++ " includes " ++ encNats o.includes ++ " src " ++ encPairs o.src
+              ++ " pdb " ++ encRecs o.pdb ++ " gro " ++ encRecs o.gro ++ " itp " ++ encRecs o.itp)
+    | [Tok.str "sorted", ns] => do
+        let nodes ← (← ns.list?).mapM atomOf
+        pure (encList ((sortedNodes nodes).map fun a => encInt a.key))
+    | [Tok.str "groups", ns] => do
+        let names ← nats? ns
+        pure (encPairs (groups names) ++ " " ++ encNats (includes names) ++ " " ++ encPairs (itpWrites names))
+    | _ => none
+  ((), r.getD "bad-op")
 
 def main : IO Unit := runDriver handle ()
